@@ -451,6 +451,38 @@ pub fn gen_start(r: &mut Rng) -> Start {
     if !extras.is_empty() && r.bool() {
         d.trailer.push((k("Info"), rref(*r.pick(&extras))));
     }
+    // one resource category in four (Font, XObject, ExtGState of any Resources dictionary) is held in an object of its
+    // own and named by reference, as producers that share resource dictionaries between pages write them
+    let mut next_num = d.max_num() + 1;
+    let mut moved: Vec<(Id, RObj)> = vec![];
+    for o in d.objects.values_mut() {
+        let RObj::Dict(e) = o else { continue };
+        let mut res_dicts: Vec<&mut Vec<(Vec<u8>, RObj)>> = vec![];
+        let own = e.iter().any(|(kk, _)| kk == b"Font");
+        if own {
+            res_dicts.push(e);
+        } else {
+            for (kk, v) in e.iter_mut() {
+                if kk == b"Resources" {
+                    if let RObj::Dict(rd) = v {
+                        res_dicts.push(rd);
+                    }
+                }
+            }
+        }
+        for rd in res_dicts {
+            for (cat_name, v) in rd.iter_mut() {
+                if [&b"Font"[..], b"XObject", b"ExtGState"].contains(&cat_name.as_slice()) && matches!(v, RObj::Dict(_)) && r.chance(1, 4) {
+                    let id = (next_num, 0u16);
+                    next_num += 1;
+                    moved.push((id, std::mem::replace(v, RObj::Ref(id.0, id.1))));
+                }
+            }
+        }
+    }
+    for (id, o) in moved {
+        d.objects.insert(id, o);
+    }
     Start { model: d, content }
 }
 
@@ -1239,7 +1271,7 @@ pub fn run(cfg: &RunCfg) -> (PropMeta, ShardOut, Map<String, Value>) {
     });
     let meta = PropMeta {
         level: "exploration",
-        rule: "random programs (1..40 steps) over new_object_id, add_object, set_object, delete_object, remove_object(annotation), prune_objects, delete_pages, renumber_objects(_with), compress, decompress, change_page_content, add_page_contents, add_to_page_content, add_xobject, add_graphics_state, get_or_create_resources, add_bookmark+build_outline, save+reload, on generated documents (1..6 pages in one or two tree levels; Contents as stream ref / array / reference to array (now and then shared by several pages) / absent, content streams plain, Flate-coded or Flate-coded with a PNG predictor; Resources own, by reference, or inherited; annotations incl. duplicates; shared, cyclic and unreachable extras), one third of them written by the reference writer and loaded first. After every step: per-operation write set against a snapshot taken before the call, fresh ids, no reference to a deleted object left, exact prune set, Count invariant, page list and page content vs the position-keyed edit model, resources in effect never shrink. distinct = programs + distinct (op,op) successions observed.".into(),
+        rule: "random programs (1..40 steps) over new_object_id, add_object, set_object, delete_object, remove_object(annotation), prune_objects, delete_pages, renumber_objects(_with), compress, decompress, change_page_content, add_page_contents, add_to_page_content, add_xobject, add_graphics_state, get_or_create_resources, add_bookmark+build_outline, save+reload, on generated documents (1..6 pages in one or two tree levels; Contents as stream ref / array / reference to array (now and then shared by several pages) / absent, content streams plain, Flate-coded or Flate-coded with a PNG predictor; Resources own, by reference, or inherited, their Font / XObject / ExtGState categories now and then objects of their own; annotations incl. duplicates; shared, cyclic and unreachable extras), one third of them written by the reference writer and loaded first. After every step: per-operation write set against a snapshot taken before the call, fresh ids, no reference to a deleted object left, exact prune set, Count invariant, page list and page content vs the position-keyed edit model, resources in effect never shrink. distinct = programs + distinct (op,op) successions observed.".into(),
         assumptions: vec![
             "delete_object / set_object are aimed at objects that are not page-tree nodes (deleting a page is delete_pages' job)".into(),
             "renumbering steps are judged by C10's oracle; dangling references that start to resolve are C10's known finding and not double-reported here".into(),
